@@ -89,7 +89,8 @@ def runMerge (c : Json) : R Json := do
       | [] => pure (Json.mkObj [("stage", "done"), ("res", viewOnly cfg)])
       | s :: rest => do
         let o ← getOpts s "opts"
-        let b ← parseGoData ((optField s "b").getD .null)
+        -- "self": the config is merged into itself (the very same object is source and destination)
+        let b ← if boolFieldD s "self" false then pure (GoData.cfg cfg) else parseGoData ((optField s "b").getD .null)
         match cfgMerge o cfg b with
         | .ok cfg' => go cfg' (i + 1) rest
         | r => pure (Json.mkObj [("stage", .str s!"step{i}"), ("res", outcomeJson (fun _ => Json.null) r)])
@@ -294,10 +295,11 @@ def mergeOracle (c : Json) : R (Option Json) := do
         | [] => pure (some t)
         | s :: rest => do
           let b ← parseGoData ((optField s "b").getD .null)
-          match b with
-          | .nil => go t rest
-          | _ =>
-            match specTree b with
+          let self := boolFieldD s "self" false
+          match b, self with
+          | .nil, false => go t rest
+          | _, _ =>
+            match (if self then some t else specTree b) with
             | none => pure none
             | some tb =>
               let (g, fs) ← fieldSpecs ((optField s "opts").getD (.arr #[]))
@@ -430,7 +432,7 @@ def runConv (std : Stdlib) (c : Json) : R (Json × Option Json × Option String)
     | .int i => if i > 0 then Prim.uint i.toNat else .int i
     | q => q
   let model := outcomeJson scalarJson (match reifyPrim std k p with
-    | .err e => .err { e with path := some (if strFieldD c "via" "" == "ref" then "w" else "v") }
+    | .err e => .err { e with path := some (if strFieldD c "via" "" == "" || strFieldD c "via" "" == "literal" then "v" else "w") }
     | r => r)
   let oracle : Option Json := match optField c "impl" with
     | none => none
